@@ -236,3 +236,99 @@ def run_link(chk, F, G_, predicates, collector, rid="R-GATESRC"):
                    "expression_t::%s no longer takes its answer from %s and does not itself answer `yes` for the write "
                    "kind(s) %s: the gates that call it accept such an expression in a side-effect-free context" %
                    (name, collector, missing), "%s:%s" % (fn["file"], fn["line"]))
+
+
+# ---------------------------------------------------------------------------------------------- R-RECURFWD
+# A recursive call that leaves a parameter to its default asks a *different* question about the sub-structure than the
+# one the caller was asked: `get(i).collect_possible_reads(symbols)` inside collect_possible_reads(symbols, collectRandom)
+# forgets below the root that draws of random numbers count as reads (found by a defect-hunt sub-agent: `-random(3)` was a
+# compile-time constant while `random(3)` was not).  Listed: recursion whose subject plays another role than `child of the
+# same question`, confirmed by reading.
+RECURFWD_LISTED = {
+    ("checkType", "get_array_size"): "the index type of an array is a type of its own: whether the array may be "
+                                     "initialised or is a field of a struct says nothing about its size type",
+}
+
+
+def run_recurfwd(chk, F, names, rid="R-RECURFWD", minimum=1):
+    chk.rule(rid, "in the recursive functions the gates consult (%s): a call of the function from itself passes every "
+                  "parameter that has a default value explicitly - falling back to the default drops, below the root, "
+                  "what the caller asked for; listed: recursion into a part that is not a child of the same question" %
+             ", ".join(names))
+    n = 0
+    for fn in sorted(F.functions.values(), key=lambda f: (f.get("file") or "", f.get("line") or 0)):
+        fl = fn.get("file") or ""
+        if fn.get("body") is None or fn.get("name") not in names or fl.startswith("/usr") or "/test/" in fl:
+            continue
+        params = fn.get("params", [])
+        # what locals are computed from (to recognise the role of the subject of the recursion)
+        src = {}
+        for d in walk(fn["body"]):
+            if d.get("k") == "decl":
+                for v in d.get("vars", []):
+                    if v.get("init") is not None:
+                        src.setdefault(v.get("id"), []).append(v["init"])
+            lhs = rhs = None
+            if d.get("k") == "bin" and d.get("op") == "=":
+                lhs, rhs = d["lhs"], d["rhs"]
+            elif d.get("k") == "call" and d.get("ck") == "op" and d.get("op") == "=" and d.get("recv") is not None and d.get("args"):
+                lhs, rhs = d["recv"], d["args"][0]
+            if lhs is not None and strip(lhs).get("k") == "ref":
+                src.setdefault(strip(lhs).get("id"), []).append(rhs)
+
+        def roles(e, depth=0):
+            out = set()
+            for x in walk(e):
+                if x.get("k") == "call" and x.get("name"):
+                    out.add(x["name"])
+                if x.get("k") == "ref" and x.get("id") in src and depth < 3:
+                    for s in src[x["id"]]:
+                        out |= roles(s, depth + 1)
+            return out
+        for c in calls(fn["body"]):
+            if c.get("fn") != fn["q"] or len(c.get("args", [])) != len(params):
+                continue
+            n += 1
+            subj = c.get("recv") if not _is_this(c.get("recv")) else (c["args"][0] if c.get("args") else None)
+            for i, a in enumerate(c["args"]):
+                if not (isinstance(a, dict) and a.get("k") == "defarg"):
+                    continue
+                pn = params[i].get("name")
+                listed = [k for k in RECURFWD_LISTED if k[0] == fn["name"] and subj is not None and k[1] in roles(subj)]
+                if listed:
+                    chk.ob(rid, "%s|%s|%s|listed" % (fn["name"], pn, listed[0][1]), True, "", "%s:%s" % (fl, c.get("l")),
+                           sample="%s: %s - listed: %s" % (fn["name"], short(c)[:60], RECURFWD_LISTED[listed[0]][:60]))
+                    continue
+                chk.ob(rid, "%s|%s" % (fn["name"], pn), False,
+                       "%s calls itself as `%s` and leaves its parameter `%s` to the default: what the caller asked "
+                       "for with that parameter is forgotten for everything below the root" % (fn["q"], short(c)[:70], pn),
+                       "%s:%s" % (fl, c.get("l")))
+            if not any(isinstance(a, dict) and a.get("k") == "defarg" for a in c["args"]):
+                chk.ob(rid, "%s|call@%s" % (fn["name"], short(subj)[:30] if subj is not None else "this"), True, "",
+                       "%s:%s" % (fl, c.get("l")), sample="%s: %s forwards all parameters" % (fn["name"], short(c)[:60]))
+    if n < minimum:
+        raise AnalysisBroken("R-RECURFWD: only %d recursive calls found in %s" % (n, ", ".join(names)))
+
+
+def run_randomdep(chk, F, rid="R-RANDOMDEP"):
+    """function_t::depends is what collect_possible_reads adds for a call; a function that draws random numbers is
+    compile-time computable unless its summary says so."""
+    chk.rule(rid, "the read summary of a function (function_t::depends, filled by CollectDependenciesVisitor) records "
+                  "draws of random numbers: the visitor collects the reads of each expression of the body with "
+                  "collectRandom = true")
+    fns = [f for f in F.fns("UTAP::CollectDependenciesVisitor::visitExpression") if f.get("body") is not None]
+    if not fns:
+        raise AnalysisBroken("CollectDependenciesVisitor::visitExpression not found")
+    fn = fns[0]
+    cs = [c for c in calls(fn["body"]) if c.get("name") == "collect_possible_reads"]
+    if not cs:
+        raise AnalysisBroken("CollectDependenciesVisitor::visitExpression does not call collect_possible_reads")
+    for c in cs:
+        a = c["args"][1] if len(c.get("args", [])) > 1 else None
+        v = a.get("e") if isinstance(a, dict) and a.get("k") == "defarg" else a
+        v = strip(v) if v is not None else None
+        ok = isinstance(v, dict) and v.get("k") in ("bool", "int") and bool(v.get("v"))
+        chk.ob(rid, "visitExpression", ok,
+               "CollectDependenciesVisitor::visitExpression collects the reads of a function body without the draws of "
+               "random numbers (`%s`): `double f() { return random(3); } const double v = f();` is accepted as a "
+               "compile-time constant" % short(c)[:70], "%s:%s" % (fn["file"], c.get("l")))
